@@ -379,6 +379,11 @@ def run(rep, facts, tier):
             r_endian.run(rep, f, c)
             if c.startswith('simd'):
                 r_lane.run(rep, f, c)
+            # the cfg-selected alternatives of the UTF-16 fast-path kernel (UnalignedU16Slice::copy_bmp_to: iterator loop in the default
+            # build, SIMD stride + scalar tail under simd-accel) must stop at exactly the surrogate class in every configuration
+            import r_surr
+            ns = r_surr.run(rep, f, c, 'R-SURR', lambda nm: nm.startswith('handles::UnalignedU16Slice'))
+            rep.floor('R-SURR', 'surrogate-class tests in the cfg-selected UTF-16 copy kernel', ns, 1, c)
             scan.run_specs(rep, f, c, 'R-SCAN', ['utf_8::utf8_valid_up_to', 'utf_8::convert_utf8_to_utf16_up_to_invalid', 'mem::utf16_valid_up_to',
                                                  'mem::is_utf8_bidi', 'mem::is_str_bidi', 'mem::is_utf8_latin1_impl'])
     if 'default' in facts and 'simd' in facts:
